@@ -32,6 +32,7 @@ and in the export event: the exported memory items are pairwise disjoint and cov
 import hashlib
 
 from mc import bfs
+from mc.runner import violation
 
 PROP = "C13"
 LEVEL = "model_checking"
@@ -515,7 +516,10 @@ def _content_key(st):
 
 
 def canon(st):
-    key = (st.more, st.limit - st.nev, _content_key(st))
+    ck = _content_key(st)
+    if _keys is not None:
+        _keys.add(hashlib.sha1(repr(ck).encode()).digest()[:10])
+    key = (st.more, st.limit - st.nev, ck)
     return hashlib.sha1(repr(key).encode()).hexdigest()       # short, deterministic handle (keys travel between processes)
 
 
@@ -538,14 +542,16 @@ def _plan():
         if seed not in SEEDS:
             SEEDS.append(seed)
         PLAN[tier].append(SEEDS.index(seed))
-    # quick: depth 3 on two systems, depth 2 on the four others, depth 2 behind the three seeded stores
-    for asz, primary in ((8, SYM), (32, SUM)):
+    # quick: depth 3 on three systems, depth 2 on the three others, depth 2 behind the three seeded stores
+    for asz, primary in ((8, SYM), (32, SUM), (32, INT)):
         add("quick", (asz, primary, (), 3, False))
-    for asz, primary in ((8, INT), (8, SUM), (32, INT), (32, SYM)):
+    for asz, primary in ((8, INT), (8, SUM), (32, SYM)):
         add("quick", (asz, primary, (), 2, False))
     for asz, primary, pre in ((8, SYM, PRE1), (32, INT, PRE2), (32, SUM, PRE3)):
         add("quick", (asz, primary, pre, 2, False))
-    # thorough: depth 4 on every system (base menu), depth 3 with the extended menu, depth 3 behind six seeded stores
+    # thorough: depth 5 on one system, depth 4 on every system (base menu), depth 3 with the extended menu, depth 3 behind
+    # six seeded stores
+    add("thorough", (8, SYM, (), 5, False))
     for asz in (8, 32):
         for primary in (INT, SYM, SUM):
             add("thorough", (asz, primary, (), 4, False))
@@ -560,36 +566,81 @@ def _plan():
 _plan()
 
 
-class _Sub(object):
-    """The system restricted to the seeds of one tier (bfs.explore starts from every seed it is given):
-    seeds are passed as indexes into SEEDS, so that recorded cases carry tier-independent handles."""
+class _Local(object):
+    """Context of one in-process search (one search per seed: the probe table and compiled evaluators stay warm)."""
 
-    def __init__(self, mod):
-        self.mod = mod
-        self.events, self.apply, self.invariant, self.canon, self.outcome = mod.events, mod.apply, mod.invariant, mod.canon, mod.outcome
+    def __init__(self):
+        self.violations = []
 
-    def make(self, seed_idx):
-        return self.mod.make(SEEDS[seed_idx])
+    def pmap(self, fn, shards):
+        return [fn(s) for s in shards]
+
+    def violation(self, sig, what, case):
+        self.violations.append(violation(sig, what, case))
+
+
+_keys = None
+
+
+def _explore_seed(seed_idx):
+    import sys
+    global _keys
+    local = _Local()
+    seed = SEEDS[seed_idx]
+    _keys = set()
+    cov = bfs.explore(local, sys.modules[__name__], max_depth=seed[3], seeds=[seed], chunk=64)
+    # keep at most 3 witnesses per signature (first found = shortest history), count the rest
+    count = {}
+    keep = []
+    for v in local.violations:
+        v["case"]["seed"] = seed_idx
+        count[v["sig"]] = count.get(v["sig"], 0) + 1
+        if count[v["sig"]] <= 3:
+            keep.append(v)
+    for smp in cov.get("samples", []):
+        smp["seed"] = seed_idx
+    keys, _keys = _keys, None
+    return cov, keep, count, keys
 
 
 def run(ctx):
-    import sys
     idxs = PLAN[ctx.tier]
-    # bfs records the position in the list it is given: hand it the full-length list, inactive seeds masked by a
-    # zero depth limit would still be visited, so instead explore from `idxs` and rewrite the recorded positions.
-    sub = _Sub(sys.modules[__name__])
-    depth = max(SEEDS[i][3] for i in idxs)
-    n0 = len(ctx.violations)
-    cov = bfs.explore(ctx, sub, max_depth=depth, seeds=idxs, chunk=4)
-    for v in ctx.violations[n0:]:
-        v["case"]["seed"] = idxs[v["case"]["seed"]]
-    for smp in cov.get("samples", []):
-        smp["seed"] = idxs[smp["seed"]]
+    if ctx.quick:
+        # one process: a transition costs ~2 ms once the probe table and the compiled evaluators are warm, which a pool
+        # of cold workers cannot beat on this amount of work
+        res = [_explore_seed(i) for i in idxs]
+    else:
+        order = sorted(idxs, key=lambda i: (-SEEDS[i][3], -int(SEEDS[i][4]), i))      # deepest searches first
+        got = dict(zip(order, ctx.pmap(_explore_seed, order)))
+        res = [got[i] for i in idxs]
+    cov = {"samples": [], "new_states_per_depth_by_seed": {}, "states_counted_per_seed": 0}
+    sigcount = {}
+    vs = []
+    allkeys = set()
+    for (c, keep, count, keys), si in zip(res, idxs):
+        for k in ("transitions", "traces_validated_against_impl", "evaluations"):
+            cov[k] = cov.get(k, 0) + c[k]
+        cov["states_counted_per_seed"] += c["states"]
+        cov["new_states_per_depth_by_seed"][str(si)] = c["new_states_per_depth"]
+        cov["samples"] += c["samples"][:1]
+        cov["distinct_outcomes"] = max(cov.get("distinct_outcomes", 0), c["distinct_outcomes"])
+        vs += keep
+        allkeys |= keys
+        for k, n in count.items():
+            sigcount[k] = sigcount.get(k, 0) + n
+    # witnesses: shortest history first
+    vs.sort(key=lambda v: (len(v["case"]["hist"]) + len(SEEDS[v["case"]["seed"]][2]), v["case"]["seed"]))
+    ctx.add_violations(vs)
+    cov["states"] = cov["distinct_nontrivial"] = len(allkeys)       # measured: distinct (system, store content) over all seeds
+    cov["samples"] = cov["samples"][:4]
+    cov["violating_transitions_by_signature"] = sigcount
+    cov["exhaustive"] = True
+    cov["max_depth"] = max(SEEDS[i][3] for i in idxs)
     cov["bounds"] = {"address_sizes": [8, 32], "bases": ["int", "A", "A+B"], "widths": list(WIDTHS),
                      "seeds(addrsize,base,pre,depth,extended_menu)": [repr(SEEDS[i]) for i in idxs],
                      "events_per_state": {"base_menu": len(events(make((8, SYM, (), 1, False)))),
                                           "extended_menu": len(events(make((8, SYM, (), 1, True))))},
-                     "probe_offsets": PROBE_OFFS, "valuations": NVAL, "max_depth": depth}
+                     "probe_offsets": PROBE_OFFS, "valuations": NVAL}
     return cov
 
 
